@@ -571,6 +571,22 @@ pub fn suite_enum(out: &mut Out, _tier: &str, _rng: &mut Rng) {
     for f in ["MessageType", "ErrorType", "ProxyAuthenType", "StopCcn", "Cdn"] {
         out.emit(json!({"op": "enum_names", "field": f}));
     }
+    // many unassigned codes in ONE message (255, 256, 257 of them after a valid Message Type): still rejected
+    for n in [255usize, 256, 257] {
+        for field in 0..3 {
+            let mut body = enc_avp(&json!({"k": "MessageType", "f": ["StopControlConnectionNotification"]}));
+            for i in 0..n {
+                let code = 17 + (i as u16 % 200);
+                body.extend(match field {
+                    0 => enc_record(1, 8, 0, 0, &code.to_be_bytes()),
+                    1 => enc_record(1, 8, 0, 29, &(code + 6).to_be_bytes()),
+                    _ => enc_record(1, 8, 0, 40 + code, &[0, 1]),
+                });
+            }
+            let b = enc_control_raw(flag_word(true, true, true, false, false, 2), None, [1, 2, 3, 4], &body);
+            out.emit(json!({"op": "decode", "in": bytes_json(&b), "opts": [true, true, true], "entry": "validate", "rdr": "slice", "enum_many": true}));
+        }
+    }
 }
 
 pub fn suite_bitmask(out: &mut Out, tier: &str, rng: &mut Rng) {
